@@ -492,15 +492,28 @@ pub fn count_literal(kind: &CountKind, n: Num) -> String {
 }
 
 /// the `, name = value, <b> = ..` tail of a macro call + the Env describing the same arguments
+fn syn_ident_ok(v: &str) -> bool {
+    // a shorthand argument needs a plain identifier that does not collide with names the probe uses
+    v.chars().all(|c| c.is_ascii_alphanumeric() || c == '_') && !matches!(v, "c" | "l" | "p" | "ctx" | "count" | "n")
+}
+
 pub fn args_for(sig: &Sig, flavour: Flavour, count: Num) -> Option<(String, Env)> {
     let mut parts = vec![];
+    // let-bindings for the shorthand argument forms (`x`, `<b>`): variables of that name in scope
+    let mut bindings = String::new();
+    let shorthand = matches!(flavour, Flavour::Tu | Flavour::TuDisplay);
     let mut env = Env { html_tags: true, empty_child_space: flavour.is_view(), ..Default::default() };
     for v in sig.vars.keys() {
         if sig.counts.contains_key(v) {
             continue;
         }
         let val = format!("\u{ab}{v}\u{bb}");
-        parts.push(format!("{} = {}", ident(v), rust_str(&val)));
+        if shorthand && syn_ident_ok(v) {
+            bindings.push_str(&format!("let {} = {}; ", ident(v), rust_str(&val)));
+            parts.push(ident(v));
+        } else {
+            parts.push(format!("{} = {}", ident(v), rust_str(&val)));
+        }
         env.vars.insert(v.clone(), val);
     }
     for (v, kinds) in &sig.counts {
@@ -523,7 +536,18 @@ pub fn args_for(sig: &Sig, flavour: Flavour, count: Num) -> Option<(String, Env)
             if c != "b" && c != "i" {
                 return None;
             }
-            parts.push(format!("<{c}> = comp_{c}"));
+            // the three ways a view component can be given: an expression, a variable of that name, a tag
+            match flavour {
+                Flavour::T => parts.push(format!("<{c}> = <{c} />")),
+                Flavour::Tu => {
+                    bindings.push_str(&format!("let {c} = comp_{c}; "));
+                    parts.push(format!("<{c}>"));
+                }
+                _ => parts.push(format!("<{c}> = comp_{c}")),
+            }
+        } else if shorthand {
+            bindings.push_str(&format!("let {c} = {}; ", rust_str(c)));
+            parts.push(format!("<{c}>"));
         } else {
             // every way a component can be given to the string back-ends (same rendering: `<c>..</c>`)
             let form = match flavour {
@@ -537,7 +561,12 @@ pub fn args_for(sig: &Sig, flavour: Flavour, count: Num) -> Option<(String, Env)
             parts.push(format!("<{c}> = {form}"));
         }
     }
-    let tail = if parts.is_empty() { String::new() } else { format!(", {}", parts.join(", ")) };
+    let mut tail = if parts.is_empty() { String::new() } else { format!(", {}", parts.join(", ")) };
+    if !bindings.is_empty() {
+        // carried to `scoped_call` behind a separator
+        tail.push('\u{1}');
+        tail.push_str(&bindings);
+    }
     Some((tail, env))
 }
 
@@ -548,6 +577,10 @@ pub fn call(flavour: Flavour, locale_expr: &str, key: &str, tail: &str) -> Strin
 /// an expression of type String reading `segments` (namespace first, if any) in `locale_expr`
 pub fn scoped_call(flavour: Flavour, scoping: Scoping, locale_expr: &str, segments: &[String], tail: &str) -> String {
     let mac = flavour.macro_name();
+    let (tail, bindings) = match tail.split_once('\u{1}') {
+        Some((t, b)) => (t, b),
+        None => (tail, ""),
+    };
     let wrap = |inner: String| if flavour.is_view() { format!("html({inner})") } else { format!("{inner}.to_string()") };
     let (k, chained, use_scoped) = match scoping {
         Scoping::None => (0, false, false),
@@ -586,7 +619,7 @@ pub fn scoped_call(flavour: Flavour, scoping: Scoping, locale_expr: &str, segmen
         pre.push_str(&format!("let l = scope_locale!({locale_expr}, {}); ", prefix.join(".")));
         source = "l".to_string();
     }
-    format!("{{ {pre}{} }}", wrap(format!("{mac}!({source}, {rest}{tail})")))
+    format!("{{ {bindings}{pre}{} }}", wrap(format!("{mac}!({source}, {rest}{tail})")))
 }
 
 /// expected text of (ns, loc, path) under env
